@@ -21,6 +21,9 @@ class VReactor(task.Clock):
         self.threadpool = None
         self.fired = []  # (time, repr of callable) log of every delayed call fired
         self.max_steps = 10000
+        # A real reactor fires EVERY "after startup" trigger, also those after one that crashed/stopped it
+        # (ReactorBase.fireSystemEvent).  Off by default (historical behaviour: stop at the first crash).
+        self.all_startup_triggers = False
 
     # -- IReactorCore subset ---------------------------------------------------
     def callWhenRunning(self, f, *a, **kw):
@@ -36,7 +39,7 @@ class VReactor(task.Clock):
         try:
             pending, self._when_running = self._when_running, []
             for f, a, kw in pending:
-                if not self.running:
+                if not self.running and not self.all_startup_triggers:
                     break
                 f(*a, **kw)
             steps = 0
